@@ -16,3 +16,24 @@ func VerifY(site int) {
 		h(site)
 	}
 }
+
+// VerifLoops counts loop iterations of the instrumented copies since the harness last reset it;
+// VerifLoopHook is called when the count passes VerifLoopLimit (a run that spins without ever blocking
+// would otherwise hang the single-threaded simulation instead of being reported).
+var (
+	VerifLoops     int64
+	VerifLoopLimit int64
+	VerifLoopHook  func()
+)
+
+// VerifL is the call inserted at the top of every loop body of the instrumented copies.
+//
+//go:norace
+func VerifL() {
+	VerifLoops++
+	if VerifLoops > VerifLoopLimit && VerifLoopLimit > 0 {
+		if h := VerifLoopHook; h != nil {
+			h()
+		}
+	}
+}
